@@ -74,6 +74,7 @@ type EventDecl struct {
 	Callee string // full name pattern of the callee (function or interface method)
 	When   *CExpr // optional predicate over a0..an (call arguments; a0 = receiver for methods) and, for ret events, r0..rn
 	Ret    bool   // emitted after the call returned (results visible)
+	Chan   string // "send" / "recv": a channel operation on the channel held in struct field Callee (pkg.Type.field)
 }
 
 type TypeInv struct {
@@ -272,14 +273,17 @@ func (db *ContractDB) LoadFile(path, pkgPath string, assumed bool) error {
 				curSpec = sf
 			case "event":
 				// event Name = call <callee> [when expr]
-				m := regexp.MustCompile(`^(\w+)\s*=\s*(call|ret)\s+(\S+)(?:\s+when\s+(.*))?$`).FindStringSubmatch(rest)
+				m := regexp.MustCompile(`^(\w+)\s*=\s*(call|ret|send|recv)\s+(\S+)(?:\s+when\s+(.*))?$`).FindStringSubmatch(rest)
 				if m == nil {
-					return errf(l, "event <Name> = call|ret <callee> [when <expr>]")
+					return errf(l, "event <Name> = call|ret <callee> [when <expr>]  or  send|recv <Type.field>")
 				}
 				if _, dup := db.Events[m[1]]; dup {
 					return errf(l, "duplicate event %s", m[1])
 				}
 				ev := &EventDecl{Pkg: pkgPath, Name: m[1], Callee: m[3], Ret: m[2] == "ret"}
+				if m[2] == "send" || m[2] == "recv" {
+					ev.Chan = m[2]
+				}
 				m[3] = m[4]
 				if m[3] != "" {
 					e, err := ParseCExpr(m[3])
